@@ -87,7 +87,7 @@ STARTS = {"two": [None, "first", "second", "nosuch"], "ref": [None, "num", "word
 SETTINGS_POOL = [
     {}, {}, {}, {"ignorecase": True}, {"nameguard": False}, {"nameguard": True}, {"parseinfo": True},
     {"whitespace": ""}, {"whitespace": "[ ]+"}, {"left_recursion": False}, {"memoization": False}, {"trace": False},
-    {"ignorecase": True, "parseinfo": True}, {"namechars": "_"},
+    {"ignorecase": True, "parseinfo": True}, {"namechars": "_"}, {"trace": True, "colorize": False}, {"memoization": False, "parseinfo": True},
 ]
 NAMES = [None, None, "A", "B", "Test"]
 SEMS = ["none", "none", "id", "tag", "default", "num", "eq"]
